@@ -4,7 +4,7 @@
 out=${1:-/var/tmp/baseline.json}
 cd /repo || exit 2
 go build ./... || exit 2
-go test -mod=mod -json -vet=off -count=1 -timeout 25m ./... > "$out" 2>/var/tmp/baseline.err
+go test -mod=mod -json -vet=off -count=1 -timeout ${BASELINE_TIMEOUT:-25m} ./... > "$out" 2>/var/tmp/baseline.err
 python3 - "$out" <<'PY'
 import json,sys
 passed=set(); failed=set()
